@@ -40,6 +40,7 @@ type Event struct {
 	OptH   []metadata.MD     `json:"opt_h,omitempty"` // grpc.Header targets at return
 	OptT   []metadata.MD     `json:"opt_t,omitempty"` // grpc.Trailer targets at return
 	obj    proto.Message     // the receiver's live object (for the later re-check)
+	RawBody []byte           `json:"-"` // raw peer: reply body
 }
 
 func (e *Event) String() string {
@@ -245,6 +246,10 @@ func junkMessage() *grpchantesting.Message {
 
 func (s *Sim) clientMain(rs *rpcState, g int, ops []Op) {
 	r := rs.r
+	if r.RawClient {
+		s.rawClient(rs, ops)
+		return
+	}
 	conn := s.env.conn(r.Transport)
 	name := fmt.Sprintf("c%d.%d", r.ID, g)
 	if g == 0 {
@@ -745,7 +750,11 @@ func (s *Sim) streamHandler(rs *rpcState, stream grpc.ServerStream) (err error) 
 	r := rs.r
 	ctx := stream.Context()
 	s.handlerEnter(rs, ctx, "stream")
-	defer func() { s.handlerExit(rs, err, nil) }()
+	s.instant(r.ID, 'h', 0, "impl-enter", nil)
+	defer func() {
+		s.instant(r.ID, 'h', 0, "impl-exit", func(e *Event) { e.Err = classify(err) })
+		s.handlerExit(rs, err, nil)
+	}()
 	name := fmt.Sprintf("h%d", r.ID)
 	for _, op := range r.Handler {
 		simrt.Yield(name + ":" + op.K)
@@ -895,7 +904,9 @@ func (s *Sim) unaryHandler(rs *rpcState, ctx context.Context, dec func(any) erro
 		}
 	}
 	rest := ops[i:]
-	body := func(ctx context.Context, _ any) (any, error) {
+	body := func(ctx context.Context, _ any) (rv any, rerr error) {
+		s.instant(r.ID, 'h', 0, "impl-enter", nil)
+		defer func() { s.instant(r.ID, 'h', 0, "impl-exit", func(e *Event) { e.Err = classify(rerr) }) }()
 		for _, op := range rest {
 			simrt.Yield(name + ":" + op.K)
 			if op.K == "return" {
